@@ -158,6 +158,44 @@ theorem C15_copy_is_linewise (pps : List PP) (ss : List Nat) (lines : List Str) 
   rw [C15_files_independent pps ss [lines] hl]
   simp [C15_output_is_linewise, h]
 
+/-- T8: the processor list a generator ends up with contains what the language configuration asks for and keeps the
+caller's processors, in order, in front: a limiter whenever `limit_empty_lines` is configured (the caller's own if there is
+one), a trimmer whenever `trim_trailing_whitespace` is on; nothing is added that was not asked for. -/
+theorem C15_assembled_processors (given : Option (List Item)) (cfgLimit : Option Nat) (cfgTrim : Bool) :
+    let r := (assemble given cfgLimit cfgTrim).getD []
+    (cfgLimit.isSome → r.any Item.isLimit = true) ∧
+    (cfgTrim = true → r.any Item.isTrim = true) ∧
+    (∃ added, r = given.getD [] ++ added ∧ added.length ≤ 2 ∧
+      (∀ i ∈ added, (i = .trim ∧ cfgTrim = true) ∨ (∃ n, i = .limit n ∧ cfgLimit = some n))) ∧
+    ((assemble given cfgLimit cfgTrim).isNone ↔ (given.isNone ∧ cfgLimit.isNone ∧ cfgTrim = false)) := by
+  cases given with
+  | none =>
+    cases cfgLimit <;> cases cfgTrim <;>
+      simp [assemble, augmentLimit, augmentTrim, Item.isLimit, Item.isTrim]
+  | some l =>
+    cases cfgLimit with
+    | none =>
+      cases cfgTrim
+      · simp [assemble]
+      · by_cases ht : l.any Item.isTrim = true
+        · simp [assemble, augmentTrim, ht]
+        · simp [assemble, augmentTrim, ht, Item.isTrim]
+    | some n =>
+      by_cases hl : l.any Item.isLimit = true
+      · cases cfgTrim
+        · simp [assemble, augmentLimit, hl]
+        · by_cases ht : l.any Item.isTrim = true
+          · simp [assemble, augmentLimit, augmentTrim, hl, ht]
+          · simp [assemble, augmentLimit, augmentTrim, hl, ht, Item.isTrim]
+      · cases cfgTrim
+        · simp [assemble, augmentLimit, hl, Item.isLimit]
+        · by_cases ht : l.any Item.isTrim = true
+          · have : (l ++ [Item.limit n]).any Item.isTrim = true := by simp [List.any_append, ht]
+            simp [assemble, augmentLimit, augmentTrim, hl, this, Item.isLimit]
+          · have : ¬ (l ++ [Item.limit n]).any Item.isTrim = true := by
+              simpa [List.any_append, Item.isTrim] using ht
+            simp [assemble, augmentLimit, augmentTrim, hl, this, Item.isLimit, Item.isTrim]
+
 /-! ### The defect repaired by the `fix:` commit (kept as a regression witness)
 
 Before the fix the generator loop had no carry for a `\r` that ends a chunk: the chunking
